@@ -50,28 +50,48 @@ def main_golden_src(p):
     return main_wrap(p) + "\n;__main()"
 
 
+def node_traces(progs):
+    traces = golden.run_node([{"src": p} for p in progs])
+    for _ in range(3):  # a loaded machine can make V8 hit the per-script timeout: retry those alone
+        idx = [i for i, t in enumerate(traces) if t["completion"] == "TIMEOUT"]
+        if not idx:
+            break
+        again = golden.run_node([{"src": progs[i]} for i in idx], nproc=2)
+        for i, t in zip(idx, again):
+            traces[i] = t
+    bad = [p for p, t in zip(progs, traces) if t["completion"] == "TIMEOUT"]
+    if bad:
+        print("TIMEOUT in node for", len(bad), "programs e.g.", bad[0][-300:])
+    return [[t["lines"], t["completion"]] for t in traces]
+
+
 def gen(only=None):
     """(authoring) regenerate the golden tables from V8 for the union of both tiers."""
     for (name, pq), (_, pt) in zip(family_list("quick"), family_list("thorough")):
         if only and name not in only:
             continue
         progs = list(dict.fromkeys(pq + pt))
-        traces = golden.run_node([{"src": p} for p in progs])
-        for _ in range(3):  # a loaded machine can make V8 hit the per-script timeout: retry those alone
-            idx = [i for i, t in enumerate(traces) if t["completion"] == "TIMEOUT"]
-            if not idx:
-                break
-            again = golden.run_node([{"src": progs[i]} for i in idx], nproc=2)
-            for i, t in zip(idx, again):
-                traces[i] = t
-        bad = [p for p, t in zip(progs, traces) if t["completion"] == "TIMEOUT"]
-        if bad:
-            print("TIMEOUT in node for", len(bad), "programs of", name, "e.g.", bad[0][-300:])
-        path = golden.write_table("c01-" + name, progs, [[t["lines"], t["completion"]] for t in traces])
+        path = golden.write_table("c01-" + name, progs, node_traces(progs))
         es = list(dict.fromkeys(entry_subset(name, pq, "quick") + entry_subset(name, pt, "thorough")))
-        mt = golden.run_node([{"src": main_golden_src(p)} for p in es])
-        golden.write_table("c01-" + name + "-main", [main_golden_src(p) for p in es], [[t["lines"], t["completion"]] for t in mt])
+        ms = [main_golden_src(p) for p in es]
+        golden.write_table("c01-" + name + "-main", ms, node_traces(ms))
         print(name, len(progs), "programs,", len(es), "main-entry programs ->", path)
+
+
+def fix_timeouts():
+    """(authoring) re-run only the table entries that recorded a V8 timeout."""
+    for (name, pq), (_, pt) in zip(family_list("quick"), family_list("thorough")):
+        progs = list(dict.fromkeys(pq + pt))
+        es = list(dict.fromkeys(entry_subset(name, pq, "quick") + entry_subset(name, pt, "thorough")))
+        for tname, plist in (("c01-" + name, progs), ("c01-" + name + "-main", [main_golden_src(p) for p in es])):
+            tab = golden.load_table(tname)
+            todo = [p for p in plist if tab.get(core.sha12(p), [None, "TIMEOUT"])[1] == "TIMEOUT"]
+            if not todo:
+                continue
+            for p, t in zip(todo, node_traces(todo)):
+                tab[core.sha12(p)] = t
+            golden.write_table(tname, plist, [tab[core.sha12(p)] for p in plist])
+            print(tname, "re-ran", len(todo))
 
 
 def run(chk):
@@ -126,6 +146,8 @@ def run(chk):
             exp = over[h]["trace"] if h in over else tabm.get(h)
             if exp is None:
                 raise core.MachineryError(f"enumeration drift: main-entry program of family {name} not in golden table")
+            if exp[1] == "TIMEOUT":
+                raise core.MachineryError("golden table contains a timeout: " + g[-200:])
             t = core.trace_of(r)
             total_exec += 1
             if t != exp:
@@ -164,3 +186,5 @@ def replay(rep):
 if __name__ == "__main__":
     if sys.argv[1:2] == ["gen"]:
         gen(sys.argv[2:])
+    if sys.argv[1:2] == ["fix-timeouts"]:
+        fix_timeouts()
